@@ -11,7 +11,7 @@ sub-expressions have up to two segments), which is where a flaw of the fold's ca
 import itertools
 import re
 
-from ..teval import (Adt, Ref, Place, Cell, Sym, Top, Panicked, strip, Interp, StrB, ok, err, UNIT)
+from ..teval import (Adt, Ref, Place, Cell, Sym, Top, Panicked, strip, Interp, StrB, RList, ok, err, UNIT)
 from ..facts import AnchorMissing
 from .. import rxc, rx
 from . import tokens as T
@@ -20,6 +20,23 @@ from . import tokens as T
 def lit(ch):
     t = T.leaf("lit", ch)
     strip(strip(strip(t.fields["topology"]).fields["0"]).fields["0"]).fields["text"] = ch
+    return t
+
+
+CLASS_ATOMS = {"[x]": (False, ["x"]), "[xy]": (False, ["x", "y"]), "[!x]": (True, ["x"]), "[x-z]": (False, [("x", "z")])}
+
+
+def klass(negated, members, name):
+    from ..teval import Char
+    arch = []
+    for m in members:
+        if isinstance(m, tuple):
+            arch.append(Adt("token::Archetype", "Range", {"0": Char(m[0]), "1": Char(m[1])}))
+        else:
+            arch.append(Adt("token::Archetype", "Character", {"0": Char(m)}))
+    kind = Adt(T.LEAF, "Class", {"0": Adt("token::Class", "Class", {"is_negated": negated, "archetypes": RList(arch)})})
+    t = Adt(T.TOKEN, "Token", {"topology": Adt(T.TOPO, "Leaf", {"0": kind}), "annotation": Sym("ann_" + name)})
+    t.tag = "class:" + name
     return t
 
 
@@ -43,6 +60,8 @@ class Gen:
     def atom(self, a):
         if a == "a":
             return lit(next(self.letters)), None
+        if a in CLASS_ATOMS:
+            return klass(*CLASS_ATOMS[a], name=self.fresh()), None
         return ATOMS[a](self.fresh()), None
 
     def tokens(self, segments, lead=False, trail=False):
@@ -93,7 +112,7 @@ def literal_catalogue(tier):
     """Expressions made of literals, separators, alternations and exactly bounded repetitions of literals: the shapes
     for which invariant text is plausible (C11)."""
     out = []
-    bodies = [[["a"]], [["a"], ["a"]], [["a", "a"]]]
+    bodies = [[["a"]], [["a"], ["a"]], [["a", "a"]], [["[x]"]], [["a", "[xy]"]], [["[!x]"]], [["[x-z]", "a"]]]
 
     def branch_variants():
         yield None
@@ -434,6 +453,8 @@ class Judge:
             x = strip(fr.fields.get("0")) if isinstance(fr, Adt) else None
             if isinstance(x, StrB):
                 x = x.concrete()
+            if hasattr(x, "c") and isinstance(getattr(x, "c"), str):
+                x = x.c          # a single-character class contributes its character
             if not isinstance(x, str):
                 return None
             out += x
@@ -650,6 +671,17 @@ def reference_regex(toks, top=True):
                 if not isinstance(text, str) or strip(k.fields["is_case_insensitive"]) is not False:
                     return None
                 out.append("(?-i:" + rxc.escape(text) + ")")
+            elif inner.variant == "Class":
+                members = ""
+                for a_ in strip(k.fields["archetypes"]).items:
+                    a_ = strip(a_)
+                    cs = [strip(a_.fields[f]) for f in sorted(a_.fields)]
+                    if not all(hasattr(c, "c") for c in cs):
+                        return None
+                    members += "-".join(rxc.escape(c.c) for c in cs)
+                neg = strip(k.fields["is_negated"])
+                # a class matches one character that is (not) listed, and never a separator
+                out.append("(?-i:[^%s/])" % members if neg is True else "(?-i:[%s&&[^/]])" % members)
             elif inner.variant == "Wildcard":
                 if k.variant == "One":
                     out.append("[^/]")
